@@ -171,6 +171,11 @@ def gen_objects(rng, mode, hostile, chronological, tshift=0, integer_times=False
                 if rng.random() < 0.6:
                     # put the object on the same small grid, so that control points coincide with the head
                     x, y = rng.choice([0, 50, 100, 150, 200, 300]), rng.choice([0, 50, 100, 200])
+            if rng.random() < 0.06:
+                # the first curve point ON the slider's head ending a one-point first segment, then a segment of the same (or another)
+                # type: the "previous two control points coincide" rule of the path encoder at its smallest index (seed C04-k)
+                t1 = rng.choice("BBLC")
+                p = f"{t1}|{x}:{y}|{rng.choice([t1, t1, 'B', 'L'])}|{rng.randint(0, 512)}:{rng.randint(0, 384)}|{rng.randint(0, 512)}:{rng.randint(0, 384)}"
             if rng.random() < hostile:
                 p = rng.choice(PATHS)
             reps = rng.choice([1, 1, 2, 3, 5])
@@ -185,7 +190,9 @@ def gen_objects(rng, mode, hostile, chronological, tshift=0, integer_times=False
             else:
                 o = f"{x},{y},{tt},{2 | nc},{snd},{p},{reps},{ln},{es},{et},{extra}"
         elif kind == "n":
-            o = f"256,192,{tt},{8 | (nc & 4)},{snd},{t + tshift + rng.choice([500, 2000, -10])},{extra}"
+            # a spinner's type may carry combo-offset bits as well (they mean nothing for the spinner; what they do to the NEXT
+            # object is the question: seed C02-k)
+            o = f"256,192,{tt},{8 | (nc if rng.random() < 0.25 else (nc & 4))},{snd},{t + tshift + rng.choice([500, 2000, -10])},{extra}"
         else:
             o = f"{x},192,{tt},128,{snd},{t + tshift + rng.choice([300, 1000, 0])}:{extra}"
         if rng.random() < hostile:
